@@ -20,7 +20,8 @@ THOROUGH_BUDGET_S = 900
 RULE = ("charts of 6 games (base/osu/qua/bms/o2j/sm), 1-10 keys, 0-120 notes (thorough: up to 400) built by per-column walks "
         "whose steps sit on / next to the threshold boundary (gap+thr, +-1, +-1/1024), with chords, stacked duplicates of "
         "different kind/length (also at the end of a column), single-note and empty columns, empty hit or hold lists, "
-        "gap/threshold >= 0 incl. 0, rows shuffled; StepMania charts may carry mines/fakes/lifts/keysounds/rolls; "
+        "gap/threshold >= 0 incl. 0, rows shuffled; StepMania charts may carry mines/fakes/lifts/keysounds/rolls placed "
+        "between / on the hits and holds (they must come back untouched and must not influence the result); "
         "non-trivial = some column holds at least two notes")
 ASSUMPTIONS = [
     "pandas concat/sort_values/groupby/diff/shift/itertuples and DataFrame.from_dict are modelled as list operations "
@@ -168,6 +169,7 @@ def case_extras_rows(case):
 
 
 def case_rows(case):
+    """(rows of the further note lists, hits, holds) — only hits and holds are the subject of full_ln"""
     hits = [(F(r[0]), int(r[1]), None) for r in case["hits"]]
     holds = [(F(r[0]), int(r[1]), F(r[2])) for r in case["holds"]]
     return case_extras_rows(case), hits, holds
@@ -220,30 +222,16 @@ def snap_lengths(impl_rows, inp_rows, gap, tol):
 
 # ------------------------------------------------------------------------------------------ run
 
-_GAMES_TABLE = {}
-
-
-def games_table(drv):
-    if not _GAMES_TABLE:
-        for g in drv.call("c17.games")["ok"]:
-            _GAMES_TABLE[g["name"]] = g
-    return _GAMES_TABLE
-
-
 def run(case, drv):
     import warnings
     from reamber.algorithms.generate.full_ln import full_ln
     game = case["game"]
     gap, thr = F(case["gap"]), F(case["thr"])
     extras, hits, holds = case_rows(case)
-    inp = extras + hits + holds
+    inp = hits + holds
     tags = [game, case["mode"]]
-    info = games_table(drv)[game]
     # ---- implementation
     m = build_map(case)
-    nl = note_lists(m)
-    # the model's table of stacked lists must be the map's (else the model is fed the wrong frame)
-    table_ok = [k for k in nl if k not in ("hits", "holds")] == [e[0] for e in info["extra"]]
     snapshot = {k: v.df.copy(deep=True) for k, v in m.objs.items() if k not in ("hits", "holds")}
     impl_err = None
     res = None
@@ -254,20 +242,18 @@ def run(case, drv):
         except Exception as e:       # mapped to an enum, never raised
             impl_err = err_class(e)
     # ---- model
-    mo = drv.call("c17.model", gap=R(gap), thr=R(thr), scalar=info["scalar"], extras=[jrow(r) for r in extras],
+    mo = drv.call("c17.model", gap=R(gap), thr=R(thr), extras=[jrow(r) for r in extras],
                   hits=[jrow(r) for r in hits], holds=[jrow(r) for r in holds])
     nontrivial = any(len(v) >= 2 for v in by_column(inp).values())
-    dom = (not extras) and (info["scalar"] or not inp)
-    detail = {}
+    if extras:
+        tags.append("sm-extras")
+    if not inp:
+        tags.append("empty")
     if impl_err is not None:
         tags.append("impl-raises")
-        agree = table_ok and ("err" in mo) and mo["err"] == impl_err
-        ok = False                   # the property promises a result for every chart
-        kf = None
-        if game == "qua" and inp and impl_err == "value" and not info["scalar"]:
-            kf = "D24"
-        detail = dict(impl_error=impl_err, model=mo)
-        return dict(claim="full_ln", ok=ok, agree=agree, dom=dom, kf=kf, tags=tags, nontrivial=nontrivial, detail=detail)
+        # the property promises a result for every chart, and the model never raises
+        return dict(claim="full_ln", ok=False, agree=False, dom=True, kf=None, tags=tags, nontrivial=nontrivial,
+                    detail=dict(impl_error=impl_err, model=mo))
     # ---- result of the implementation
     bad = None
     try:
@@ -278,11 +264,11 @@ def run(case, drv):
         r_extras = []
         for k in note_lists(res):
             if k not in ("hits", "holds"):
-                rr = rows_of(res.objs[k])
-                r_extras += rr
+                r_extras += rows_of(res.objs[k])
     except BadNumber as e:
         bad = str(e)
         r_hits, r_holds, r_extras = [], [], []
+    # tempo and other lists (the further note lists among them) unchanged
     others_ok = (type(res) is type(m)) and set(res.objs.keys()) == set(m.objs.keys()) and all(
         res.objs[k].df.equals(snapshot[k]) for k in snapshot)
     # a "hit" that carries a length is not a hit: the hit list must still be a list of hits
@@ -290,7 +276,6 @@ def run(case, drv):
         bad = "hits list has a length column (its members are holds)"
     tol = tolerance(case, inp)
     out_new = r_hits + r_holds              # what full_ln produced
-    out_all = r_extras + out_new            # every note of the result
     boundary = False
     if case["mode"] == "T":
         mg = drv.call("c17.margins", gap=R(gap), thr=R(thr), rows=[jrow(r) for r in inp])["ok"]
@@ -298,27 +283,22 @@ def run(case, drv):
         out_new_s = snap_lengths(out_new, inp, gap, tol)
     else:
         out_new_s = out_new
-    out_all_s = r_extras + out_new_s
-    # ---- (S) specification on the implementation's output
-    sp = drv.call("c17.spec", gap=R(gap), thr=R(thr), inp=[jrow(r) for r in inp], out=[jrow(r) for r in out_all_s])["ok"]
+    # ---- (S) specification on the implementation's output: hits+holds of the result against hits+holds of the input
+    sp = drv.call("c17.spec", gap=R(gap), thr=R(thr), inp=[jrow(r) for r in inp], out=[jrow(r) for r in out_new_s])["ok"]
     if boundary:
         ok = sp["conservation"] and others_ok and bad is None
         tags.append("float-boundary")
     else:
         ok = sp["spec"] and sp["conservation"] and sp["no_overlap"] and others_ok and bad is None
-    kf = None
-    if not ok and extras and bad is None and others_ok:
-        # D23: the extra lists were stacked too — the produced hits/holds follow the rule for the stacked frame,
-        # but the extras themselves stay in the chart
-        sp2 = drv.call("c17.spec", gap=R(gap), thr=R(thr), inp=[jrow(r) for r in inp], out=[jrow(r) for r in out_new_s])["ok"]
-        if (sp2["spec"] or boundary) and sp2["conservation"] and rows_match(r_extras, extras, Fr(0)):
-            kf = "D23"
     # ---- (C) correspondence with the model
-    agree = table_ok and "ok" in mo
+    agree = "ok" in mo
     maxdev = 0.0
     if agree:
         m_new = [prow(j) for j in mo["ok"]["hits"]] + [prow(j) for j in mo["ok"]["holds"]]
-        if boundary:
+        agree = rows_match(r_extras, [prow(j) for j in mo["ok"]["extras"]], Fr(0)) if bad is None else False
+        if not agree:
+            pass
+        elif boundary:
             agree = rows_match([(o, c, None) for (o, c, _l) in out_new], [(o, c, None) for (o, c, _l) in m_new], Fr(0))
         elif rows_match(out_new, m_new, tol):
             if case["mode"] == "T":
@@ -339,15 +319,12 @@ def run(case, drv):
                     else:
                         agree = False
                         break
-    if extras:
-        tags.append("sm-extras")
-    if not inp:
-        tags.append("empty")
+    detail = {}
     if not (ok and agree):
-        detail = dict(spec=sp, others_unchanged=others_ok, bad_number=bad, table_ok=table_ok,
+        detail = dict(spec=sp, others_unchanged=others_ok, bad_number=bad,
                       impl_hits=[str(x) for x in r_hits[:40]], impl_holds=[str(x) for x in r_holds[:40]],
                       impl_extras=[str(x) for x in r_extras[:20]], model=mo)
-    return dict(claim="full_ln", ok=ok, agree=agree, dom=dom, kf=kf, tags=tags, nontrivial=nontrivial, maxdev=maxdev,
+    return dict(claim="full_ln", ok=ok, agree=agree, dom=True, kf=None, tags=tags, nontrivial=nontrivial, maxdev=maxdev,
                 boundary=boundary, detail=detail)
 
 
@@ -434,7 +411,7 @@ def gen_notes(rng, mode, n, keys, gap, thr):
 
 def gen(rng, tier, i):
     mode = "T" if rng.random() < 0.15 else "E"
-    game = rng.choice(["base", "base", "osu", "osu", "bms", "o2j", "sm", "sm", "sm", "qua"])
+    game = rng.choice(["base", "base", "osu", "osu", "bms", "o2j", "sm", "sm", "sm", "qua", "qua"])
     keys = rng.choice([1, 2, 4, 4, 5, 7, 8, 10])
     r = rng.random()
     if r < 0.03:
@@ -445,8 +422,6 @@ def gen(rng, tier, i):
         n = rng.randrange(17, 60)
     else:
         n = rng.randrange(60, 400 if tier == "thorough" else 120)
-    if game == "qua" and rng.random() < 0.5:
-        n = rng.choice([0, 0, 1, 2])
     gap, thr = gen_params(rng, mode)
     notes = gen_notes(rng, mode, n, keys, gap, thr)
     kind_bias = rng.random()
@@ -455,9 +430,11 @@ def gen(rng, tier, i):
     elif kind_bias < 0.16:
         notes = [(t, c, l if l is not None else Fr(10)) for (t, c, l) in notes]     # no hits at all
     extras = {}
-    if game == "sm" and notes and rng.random() < 0.3:
+    if game == "sm" and notes and rng.random() < 0.45:
         keep = []
         for nt in notes:
+            if rng.random() < 0.15:                 # a mine / roll exactly on a note that stays
+                keep.append(nt)
             if rng.random() < 0.3:
                 if nt[2] is None:
                     extras.setdefault(rng.choice(SM_HIT_EXTRAS), []).append([R(nt[0]), nt[1]])
@@ -507,11 +484,13 @@ def corpus():
     c.append(_c("base", 150, 100, [(float(0.1 + 0.2), 0), (250.3, 0), (1000.7, 0)], [(500.55, 1, 20.25)], mode="T"))
     # many stacked notes in one column: numpy's quicksort is not stable beyond 16 elements
     c.append(_c("base", 1, 1, [(0, 0)] * 20 + [(100, 0)] * 20, [(100, 0, k) for k in range(1, 21)] + [(0, 0, 5)] * 3))
-    # D23 witness shape: a StepMania mine between two hits
-    c.append(_c("sm", G, T, [(0, 0), (1000, 0)], [], extras=dict(mines=[(500, 0)]), _expect="D23"))
-    c.append(_c("sm", G, T, [(0, 0)], [(1000, 0, 50)], extras=dict(rolls=[(2000, 0, 100)], fakes=[(0, 1)]), _expect="D23"))
-    # D24 witness shape: any Quaver chart with a note
-    c.append(_c("qua", G, T, [(0, 0)], [], _expect="D24"))
+    # D23 (repaired) witness shape: a StepMania mine between two hits; rolls / fakes elsewhere
+    c.append(_c("sm", G, T, [(0, 0), (1000, 0)], [], extras=dict(mines=[(500, 0)])))
+    c.append(_c("sm", G, T, [(0, 0)], [(1000, 0, 50)], extras=dict(rolls=[(2000, 0, 100)], fakes=[(0, 1)])))
+    c.append(_c("sm", 0, 0, [], [], extras=dict(mines=[(0, 0)], lifts=[(5, 1)], keysounds=[(5, 1)])))
+    # D24 (repaired) witness shape: Quaver charts with notes
+    c.append(_c("qua", G, T, [(0, 0)], []))
+    c.append(_c("qua", G, T, [(0, 0), (250, 0), (249, 1)], [(100, 1, 30), (900, 0, 10)]))
     return c
 
 
